@@ -28,6 +28,8 @@ var scopeProgs = []scopeProg{
 	{"nested-closure", `@mk := func(@p) { return func(@q) { return func(@r) { return @p*100 + @q*10 + @r } } }; @o := @mk(a)(b)(#(3)#)`, `@o`, false},
 	{"sel-assign", `@m := {k: {v: a}, l: [1, 2]}; @m.k.v += b; @m.l[1] = #(a * 2)#; @m.k.w = c; @f := func() { @m.k.v = @m.k.v + 1 }; @f()`, `@m`, false},
 	{"sel-assign-free", `@m := {k: a}; @g := func() { @h := func() { @m.k = @m.k * 2 + b; @m.j = c }; @h() }; @g()`, `@m`, false},
+	{"copied-closure", `@n := 0; @obj := {inc: func() { @n += 1 }, get: func() { return @n }}; @cp := copy(@obj); @cp.inc(); @obj.inc(); @fs := copy([@obj.get]); @r := [@n, @obj.get(), @cp.get(), @fs[0]()]`, `@r`, false},
+	{"captured-then-reused-slot", `@o := 0; if c { @k := a; @g := func() { return @k }; @o = @g() }; @s := 0; for @v in [1, 2, b] { @s += @v }; @h := func() { return @s + @o }; @r := @h()`, `@r, @s, @o`, false},
 	{"incdec-closure", `@x := a; @f := func() { @x++; @x++; @x-- }; @f(); @y := b; @y -= @x`, `@x, @y`, false},
 	{"shadow", `@x := a; @o := 0; if c { @x := b; @x += 1; @o = @x } else { @x = @x + 2; @o = @x }`, `@x, @o`, false},
 	{"logical", `@p := #(a > 0)# && b > 0; @q := a > 0 || #(b > 0)#; @r := c ? @p : @q`, `@p, @q, @r`, false},
